@@ -869,7 +869,7 @@ class C16(Check):
 
         if op == "misc":
             bad = sorted(k for k, val in ex.items() if val is not True)
-            return ("misc: " + ",".join(bad)) if bad else None
+            return ("misc:" + bad[0]) if bad else None
         return None                                                 # dpid_parse / int: model correspondence only
 
     def ref_cidr(self, t, six, infer, allow_host):
@@ -901,6 +901,7 @@ class C16(Check):
 
     def finding_key(self, case, obs, failure):
         if re.match(r"(ip4|ip6|eth)-(text|cidr|mask):", failure): return failure
+        if failure.startswith("misc:"): return failure[5:] if failure.startswith("misc:ip6-ctor:") else failure
         return "%s:%s" % (case["op"], failure.split(":")[0][:40])
 
     def nontrivial(self, case, obs):
